@@ -451,7 +451,12 @@ class Program:
     def local_imports(self, func):
         """Imports executed inside ``func`` (function-level imports are common
         in this code base): local name -> (module, attr)."""
+        cache = self.__dict__.setdefault("_li_cache", {})
+        hit = cache.get(id(func.node))
+        if hit is not None:
+            return hit
         out = {}
+        cache[id(func.node)] = out
         f = func
         while f is not None:
             for n in walk_local(f.node):
